@@ -140,6 +140,18 @@ def sampling(tier, rng, rep):
             y = tv.point_along(tt)
             if not (abs(p.distance(y) - abs(tt)) <= 1e-5 * (1 + abs(tt))):
                 rep.fail("point_along_distance", f"t={tt} d={p.distance(y)}", {**inp, "t": tt})
+            # short distances (relative accuracy): |t| down to 2e-4, the library's distance and an independent one (Klein closed form of contracts/spec.py)
+            for ts in (2e-4, -5e-4, 1.2e-3, -3e-3, 0.02):
+                ys = tv.point_along(ts)
+                d_lib = float(p.distance(ys))
+                d_own = float(np.arccosh(max(1.0, spec.cosh_d_klein(kp, np.asarray(ys.coords("klein"), dtype=float)))))
+                if not (abs(d_lib - abs(ts)) <= 1e-3 * abs(ts) + 1e-7) or not (abs(d_own - abs(ts)) <= 1e-3 * abs(ts) + 1e-7):
+                    rep.fail("point_along_distance", f"t={ts}: the point reached is at distance {d_lib} (library) / {d_own} (closed form) from the basepoint", {**inp, "t": ts}); break
+            # following the unit tangent towards a NEARBY point for d(p, q') arrives at q'
+            qn = tv.point_along(7e-4)
+            arrn = p.unit_tangent_towards(qn).point_along(p.distance(qn))
+            if not (float(qn.distance(arrn)) <= 1e-6) or not np.all(np.abs(np.asarray(arrn.coords("klein")) - np.asarray(qn.coords("klein"))) <= 1e-7):
+                rep.fail("tangent_towards_arrives", f"nearby target at distance 7e-4: arrived {float(qn.distance(arrn))} away from it", inp)
             tv2 = q.unit_tangent_towards(r)
             M = tv.isometry_to(tv2)
             img = M @ p
